@@ -30,6 +30,8 @@ type Config struct {
 	MapOrderFuncs map[string]bool
 	// MaxPreempt bounds the preemptive context switches of the cooperative scheduler.
 	MaxPreempt int
+	// NoIfConv disables if-conversion (speculative execution of pure branch regions).
+	NoIfConv bool
 }
 
 const symPkgSuffix = "/zz_verif/sym"
@@ -62,7 +64,52 @@ func (i *interpreter) intercept(fn *ssa.Function) interceptFn {
 		return nil
 	}
 	i.icptCache[fn] = f
+	if i.icptPure == nil {
+		i.icptPure = map[*ssa.Function]bool{}
+	}
+	i.icptPure[fn] = pureIntercept(i, fn)
 	return f
+}
+
+// pureIntercept: intercepts that may run inside a speculation (if-conversion):
+// they have no effect other than building their result.
+func pureIntercept(i *interpreter, fn *ssa.Function) bool {
+	name := fn.String()
+	if fn.Pkg != nil && strings.HasSuffix(fn.Pkg.Pkg.Path(), symPkgSuffix) {
+		switch fn.Name() {
+		case "And", "Or", "Not", "Implies", "Ite32", "Ite64", "IteInt", "IteStr", "B2I", "IsSymbolic", "SlotsJSON":
+			return true
+		}
+		return false
+	}
+	if i.cfg != nil {
+		if _, ok := i.cfg.Stubs[name]; ok {
+			return true // interpreted model: its effects are ordinary stores
+		}
+	}
+	switch name {
+	case "fmt.Sprintf", "fmt.Errorf", "fmt.Sprint", "fmt.Sprintln", "fmt.Fprintf", "fmt.Println", "fmt.Printf",
+		"(*strings.Builder).String", "internal/bytealg.MakeNoZero", "internal/bytealg.IndexByteString", "internal/bytealg.IndexString",
+		"internal/bytealg.CountString", "internal/stringslite.HasPrefix", "internal/stringslite.HasSuffix", "internal/stringslite.Index",
+		"internal/stringslite.IndexByte", "bytes.Equal", "time.Now", "time.Since", "time.Until",
+		"k8s.io/apimachinery/pkg/util/wait.Jitter", "k8s.io/apimachinery/pkg/util/rand.SafeEncodeString", "errors.Is",
+		"reflect.DeepEqual", "(*k8s.io/apimachinery/third_party/forked/golang/reflect.Equalities).DeepEqual",
+		"(k8s.io/apimachinery/third_party/forked/golang/reflect.Equalities).DeepEqual", "runtime.Caller", "os.Getenv",
+		"k8s.io/apimachinery/pkg/util/runtime.GetCaller", "k8s.io/utils/pointer.AllPtrFieldsNil", "encoding/json.Marshal":
+		return true
+	}
+	for _, p := range noopPrefixes {
+		if strings.HasPrefix(name, p) {
+			return !strings.Contains(name, "sync.")
+		}
+	}
+	if _, ok := natives[name]; ok {
+		return true
+	}
+	if deepCopyIntercept(fn) != nil {
+		return true
+	}
+	return false
 }
 
 func (i *interpreter) resolveIntercept(fn *ssa.Function) interceptFn {
@@ -1193,6 +1240,9 @@ func deepCopyIntercept(fn *ssa.Function) interceptFn {
 				caller.i.nilDeref()
 			}
 			caller.i.checkFrozen(out)
+			if caller.i.spec != nil {
+				caller.i.specLogDeep(out)
+			}
 			store(elem, out, caller.i.deepCopyValue(elem, *in))
 			return nil
 		}
